@@ -1,5 +1,11 @@
 /-
 C11 — Datagram service: at most once, unmodified, ordered, never blocking.
+Over the link-free endpoint model for the per-step facts, over the pair of endpoint models for the running
+phase, and over EVERY history of one endpoint model with ANY peer (wind-down, faults, dropped
+`Multiplexor`, misbehaving peers included) for the receiving side (`datagrams_received_are_those_delivered_with_room`,
+`datagram_with_room_is_never_dropped`), for non-interference (`datagrams_never_touch_streams_every_history`,
+`datagrams_never_end_the_connection_every_history`) and for the sending side
+(`sent_datagrams_reach_the_wire_in_order`).
 -/
 import Penguin.Model.Mux
 import Penguin.Model.Frame
@@ -8,6 +14,9 @@ import Penguin.Lemmas.MuxBasic
 import Penguin.Lemmas.MuxStep
 import Penguin.Lemmas.Frame
 import Penguin.Lemmas.PairDg
+import Penguin.Lemmas.MuxDgramHist
+import Penguin.Lemmas.MuxDgramSrc
+import Penguin.Lemmas.MuxDgramStep
 
 namespace Penguin.C11
 open Penguin Penguin.Mux
@@ -142,5 +151,315 @@ example : (Pair.run (Pair.init dcfg dcfg [7, 8] [9, 10]) dacts).gb.drecv =
 example : (DgSys.run ({ cap := 1 } : DgSys.St Nat) [.send 1, .send 2, .deliver, .deliver, .recv]).got = [1] := by decide
 example : (appSendDgram { opts := {} } { fid := 0, host := [], port := 53, data := [] }).1.outq
     = [.frame (.datagram 0 53 [] [])] := by decide
+
+/-! ### Over EVERY history of one endpoint model, with ANY peer
+
+`runOps e ops` is the endpoint after the stimuli `ops` (application calls, deliveries by the transport —
+of anything: valid frames, invalid ones, errors, Close —, dropped handles, sink back-pressure, a dropped
+`Multiplexor`); one stimulus = the call followed by the connection task's run to quiescence.
+`runOpsD e {} ops` is the same run together with what an observer records (`Mux.DGhost`):
+* `queued` — the datagrams of the `Datagram` frames the task processed while the `Multiplexor` handle
+  existed and `dgramq` held fewer than `dgramCap` datagrams: `process_frame`'s own test, evaluated on the
+  state BEFORE each frame (`Mux.queuedDg`, followed through the task's run by mirrors of `settleLoop`,
+  `windDown`, … because one stimulus may process several inbox items);
+* `seen` — the datagrams of ALL the `Datagram` frames the task processed;
+* `returned` — the datagrams `get_datagram` calls answered with;
+* `discarded` — what was queued, unread, when the application dropped the `Multiplexor`;
+* `sent` — the arguments of the `send_datagram` calls that answered `Ok`;
+* `evs` — every event the endpoint emitted (`Ev.wire m` = `m` was handed to the transport).
+None of these is defined from the fields the theorems equate them with. -/
+
+open Penguin.Mux in
+/-- At most once, in order, unmodified, and lost only for a stated reason — receiving side, every
+    history.  After every history: the datagrams `get_datagram` has returned, then those waiting in the
+    queue, then those thrown away with the queue when the `Multiplexor` was dropped, are — in order, each
+    once, all four fields (flow id, host, port, payload) as they were in the frame — EXACTLY the datagrams
+    of the `Datagram` frames the task processed while the `Multiplexor` existed and the queue had room.
+    So a datagram delivered by the transport is missing from what the application gets only if the
+    queue was full when its frame was processed, or the `Multiplexor` had been dropped (before: not
+    queued; after: discarded with the queue), or its frame was never processed (the connection ended
+    first: `queued_datagrams_are_delivered_once_in_order` accounts for those still in the inbox).
+    While the `Multiplexor` exists nothing is discarded (second conjunct); once it is gone the queue is
+    empty (third). -/
+theorem datagrams_received_are_those_delivered_with_room (o : Opts) (ops : List Mux.Op) :
+    let e := runOps { opts := o } ops
+    let g := (runOpsD { opts := o } {} ops).2
+    g.returned ++ e.dgramq ++ g.discarded = g.queued ∧
+    (e.muxAlive = true → g.discarded = [] ∧ g.returned ++ e.dgramq = g.queued) ∧
+    (e.muxAlive = false → e.dgramq = []) := by
+  have h := dgram_receiver_inv o ops
+  rw [runOpsD_fst] at h
+  refine ⟨h.eq, fun ha => ⟨h.kept ha, ?_⟩, h.gone⟩
+  have := h.eq
+  rw [h.kept ha, List.append_nil] at this
+  exact this
+
+open Penguin.Mux in
+/-- What the application has received is, at every moment of every history, a prefix of the datagrams
+    queued: at most once, in the order the frames were processed. -/
+theorem received_datagrams_are_prefix_of_queued (o : Opts) (ops : List Mux.Op) :
+    (runOpsD { opts := o } {} ops).2.returned <+: (runOpsD { opts := o } {} ops).2.queued := by
+  have h := (dgram_receiver_inv o ops).eq
+  rw [← h, List.append_assoc]
+  exact List.prefix_append _ _
+
+open Penguin.Mux in
+/-- Where queued datagrams come from.  After every history: the queued datagrams are a subsequence of
+    the processed ones; the processed ones, followed by the datagrams of the `Datagram` frames still
+    waiting in the inbox, are a subsequence of the datagrams of the `Datagram` frames the transport
+    delivered (`Mux.deliveredDg`), in delivery order.  So every delivered `Datagram` frame is processed
+    at most once, never out of order, with its four fields as delivered, and nothing that was not
+    delivered as a `Datagram` frame is ever queued. -/
+theorem queued_datagrams_are_delivered_once_in_order (o : Opts) (ops : List Mux.Op) :
+    let e := runOps { opts := o } ops
+    let g := (runOpsD { opts := o } {} ops).2
+    g.queued.Sublist g.seen ∧ (g.seen ++ dgIn e.inbox).Sublist (deliveredDg ops) := by
+  have h := srcD_run { opts := o } {} [] ops (List.Sublist.refl _) (List.Sublist.refl _)
+  simp only [List.nil_append] at h
+  rw [runOpsD_fst] at h
+  exact ⟨queued_sub_seen _ {} ops (List.Sublist.refl _), h.2⟩
+
+open Penguin.Mux in
+/-- What the record is made of: a frame is recorded as queued exactly when it is a `Datagram` frame
+    processed while the `Multiplexor` exists and the queue has room, and the record is the frame's four
+    fields; a datagram is recorded as returned only by a `get_datagram` that answered with it, as
+    discarded only by dropping the `Multiplexor` while it was queued, as sent only by a `send_datagram`
+    with that argument that answered `Ok`. -/
+theorem datagram_record_is_observable (e : EP) (f : Frame) (op : Mux.Op) (r : Mux.Res) (d : Dgram) :
+    (d ∈ queuedDg e f ↔ f = .datagram d.fid d.port d.host d.data ∧ e.muxAlive = true ∧ e.dgramq.length < e.opts.dgramCap) ∧
+    (d ∈ returnedDg op r → op = .recvDgram ∧ r = .dgram d) ∧
+    (d ∈ discardedDg e op → op = .dropMux ∧ d ∈ e.dgramq) ∧
+    (d ∈ sentDg op r → op = .sendDgram d ∧ r = .unit) :=
+  ⟨queuedDg_spec e f d, returnedDg_spec op r d, discardedDg_spec e op d, sentDg_spec op r d⟩
+
+open Penguin.Mux in
+/-- Per frame, no hidden state.  In EVERY running state (the task has not finished and is not winding
+    down, its receive loop is not parked on a full accept / bind queue, the source has not ended) — so in
+    every such state any history can reach, whatever happened before: earlier overflows, streams, binds,
+    resets — the stimulus that delivers a `Datagram` frame makes the task process exactly that frame, and
+    the queue changes by exactly `process_frame`'s test on the state as it is (`Mux.queuedDg`: the datagram,
+    all four fields, if the `Multiplexor` exists and the queue has room; nothing otherwise). -/
+theorem datagram_delivery_queues_by_the_test (e : EP) (fid port : Nat) (host d : Bytes)
+    (hd : e.dead = false) (hdr : e.draining = none) (hc : e.closing = none) (hp : e.park = none)
+    (hi : e.inbox = []) (hs : e.srcEnded = false) :
+    (applyOp e (.deliver (.msg (.frame (.datagram fid port host d))))).1.dgramq =
+      e.dgramq ++ queuedDg e (.datagram fid port host d) := by
+  have h1 := (DqA.opStep e (.deliver (.msg (.frame (.datagram fid port host d))))).q
+  have h2 := (DqT.settle (opStep e (.deliver (.msg (.frame (.datagram fid port host d))))).1).q
+  rw [settleLogD_deliver_datagram queuedDg e fid port host d hd hdr hc hp hi hs] at h2
+  have h3 : (opStep e (.deliver (.msg (.frame (.datagram fid port host d))))).1.dgramq = e.dgramq := by
+    simpa [returnedDg, discardedDg] using h1.symm
+  rw [applyOp_fst', h2, h3]
+
+open Penguin.Mux in
+/-- A datagram that finds room is never dropped: in every running state (as above) in which the
+    `Multiplexor` exists and the queue has room, delivering a `Datagram` frame appends the datagram —
+    exactly it, all four fields, at the back — to the queue, whatever happened before. -/
+theorem datagram_with_room_is_never_dropped (e : EP) (fid port : Nat) (host d : Bytes)
+    (hd : e.dead = false) (hdr : e.draining = none) (hc : e.closing = none) (hp : e.park = none)
+    (hi : e.inbox = []) (hs : e.srcEnded = false)
+    (ha : e.muxAlive = true) (hroom : e.dgramq.length < e.opts.dgramCap) :
+    (applyOp e (.deliver (.msg (.frame (.datagram fid port host d))))).1.dgramq =
+      e.dgramq ++ [{ fid := fid, host := host, port := port, data := d }] := by
+  rw [datagram_delivery_queues_by_the_test e fid port host d hd hdr hc hp hi hs]
+  simp [queuedDg, ha, hroom]
+
+open Penguin.Mux in
+/-- … and a delivered datagram is dropped (the queue stays as it is) only if the queue is full or the
+    `Multiplexor` is gone. -/
+theorem datagram_dropped_only_when_full_or_gone (e : EP) (fid port : Nat) (host d : Bytes)
+    (hd : e.dead = false) (hdr : e.draining = none) (hc : e.closing = none) (hp : e.park = none)
+    (hi : e.inbox = []) (hs : e.srcEnded = false)
+    (hlost : (applyOp e (.deliver (.msg (.frame (.datagram fid port host d))))).1.dgramq = e.dgramq) :
+    e.muxAlive = false ∨ e.opts.dgramCap ≤ e.dgramq.length := by
+  rw [datagram_delivery_queues_by_the_test e fid port host d hd hdr hc hp hi hs] at hlost
+  by_cases ha : e.muxAlive = true
+  · by_cases hroom : e.dgramq.length < e.opts.dgramCap
+    · simp [queuedDg, ha, hroom] at hlost
+    · right; omega
+  · left; simpa using ha
+
+open Penguin.Mux in
+/-- Processing a `Datagram` frame, in ANY state (so in every reachable one), whatever its size and
+    fields, during the running phase or the wind-down: nothing changes but `dgramq` — not the flow table,
+    no stream object, no handle, not the accept / bind queues, not the outbound queue, not the phase of
+    the connection; no event is emitted; the receive loop goes on. -/
+theorem datagram_frame_changes_only_dgramq (e : EP) (fid port : Nat) (host d : Bytes) (ig : Bool) :
+    processFrame e (.datagram fid port host d) ig =
+      ({ e with dgramq := e.dgramq ++ queuedDg e (.datagram fid port host d) }, [], none) := by
+  cases e with
+  | mk o fl ob hn oq oc inb aq dq bq he dr op rn fb pk cl se rq dn sr dg ma de =>
+    simp only [processFrame, queuedDg]
+    cases ma with
+    | false => simp
+    | true =>
+      by_cases hroom : dq.length < o.dgramCap
+      · simp [hroom]
+      · simp [hroom]
+
+open Penguin.Mux in
+/-- Datagrams never block or alter any stream — every history.  Take ANY history and replace every
+    `Datagram` frame the transport delivers by a `Ping` (`Mux.neutralOp`; a `Ping` is read and ignored).
+    The endpoint then passes through the same states except for `dgramq` (and the not yet processed inbox
+    items, where a `Ping` stands for each `Datagram`): same flow table, same stream objects with the same
+    bytes, credit and flags, same handles, same accept / bind queues, same outbound queue, same open
+    requests, same parked state of the receive loop; it emits the same events, stimulus by stimulus, and
+    answers every call in the same way except `get_datagram` (`Mux.runOpsObs`, `Mux.visible`).  So no
+    `Datagram` frame, whatever its flow id, host, port, payload or size, whenever it arrives, has any
+    effect on anything but the datagram queue. -/
+theorem datagrams_never_touch_streams_every_history (o : Opts) (ops : List Mux.Op) :
+    let e := runOps { opts := o } ops
+    let e' := runOps { opts := o } (ops.map neutralOp)
+    e' = { e with dgramq := [], inbox := e.inbox.map neutral } ∧
+    (e'.flows = e.flows ∧ e'.objs = e.objs ∧ e'.handles = e.handles ∧ e'.acceptq = e.acceptq ∧
+     e'.bindq = e.bindq ∧ e'.held = e.held ∧ e'.outq = e.outq ∧ e'.opens = e.opens ∧ e'.park = e.park) ∧
+    runOpsObs { opts := o } (ops.map neutralOp) = runOpsObs { opts := o } ops := by
+  have h := runOps_strip { opts := o } ops
+  rw [strip_fresh] at h
+  refine ⟨h.1, ?_, h.2⟩
+  simp only [h.1, strip_flows, strip_objs, strip_handles, strip_acceptq, strip_bindq, strip_held, strip_outq,
+    strip_opens, strip_park, and_self]
+
+open Penguin.Mux in
+/-- Datagrams never terminate the connection, whatever their size — every history.  With every
+    `Datagram` frame replaced by a `Ping`, the task is finished / winding down / draining / running in
+    exactly the same way, the outbound queue and the source are open or closed in the same way, and the
+    whole event trace is the same — in particular every `Ev.exit r` (the task's result) and every
+    `Ev.wireClose`: the connection ends in a history iff it ends, at the same stimulus and with the same
+    result, in the history without the datagrams. -/
+theorem datagrams_never_end_the_connection_every_history (o : Opts) (ops : List Mux.Op) :
+    let e := runOps { opts := o } ops
+    let e' := runOps { opts := o } (ops.map neutralOp)
+    e'.dead = e.dead ∧ e'.closing = e.closing ∧ e'.draining = e.draining ∧ e'.outClosed = e.outClosed ∧
+    e'.srcEnded = e.srcEnded ∧ e'.muxAlive = e.muxAlive ∧
+    (runOpsEv { opts := o } (ops.map neutralOp)).2 = (runOpsEv { opts := o } ops).2 := by
+  have h := runOps_strip { opts := o } ops
+  have hev := runOpsEv_strip { opts := o } ops
+  rw [strip_fresh] at h hev
+  simp only [h.1, strip_dead, strip_closing, strip_draining, strip_outClosed, strip_srcEnded, strip_muxAlive, hev,
+    and_self]
+
+open Penguin.Mux in
+/-- Sending side, every history.  The `Datagram` frames handed to the transport so far, followed by
+    those still in the outbound queue, are — all four fields, in order — a prefix of the datagrams
+    `send_datagram` accepted (answered `Ok`), and they are ALL of them as long as the outbound queue is
+    open.  So every accepted datagram is sent exactly once, in order, unmodified, and no other
+    `Datagram` frame is ever enqueued or sent — whatever the peer does; once the connection is torn down
+    after an error or a Close what was still queued is dropped (a prefix was sent), after a dropped
+    `Multiplexor` it is sent first.  (`g.evs` is `(Mux.runOpsEv _ ops).2`: `Mux.runOpsD_evs`.) -/
+theorem sent_datagrams_reach_the_wire_in_order (o : Opts) (ops : List Mux.Op) :
+    let e := runOps { opts := o } ops
+    let g := (runOpsD { opts := o } {} ops).2
+    (dgramsEv g.evs ++ dgramsQ e.outq <+: g.sent) ∧
+    (e.outClosed = false → dgramsEv g.evs ++ dgramsQ e.outq = g.sent) := by
+  have h := dgram_sender_inv o ops
+  rw [runOpsD_fst] at h
+  exact h
+
+/-- `send_datagram` answers `DatagramHostTooLong` iff the host is longer than 255 bytes, `Closed` iff
+    the host fits and the outbound queue is closed, `Ok` iff the host fits and the queue is open; and
+    unless it answers `Ok` it changes nothing. -/
+theorem send_datagram_outcomes (e : EP) (d : Dgram) :
+    ((appSendDgram e d).2 = .tooLong ↔ 255 < d.host.length) ∧
+    ((appSendDgram e d).2 = .closed ↔ d.host.length ≤ 255 ∧ e.outClosed = true) ∧
+    ((appSendDgram e d).2 = .unit ↔ d.host.length ≤ 255 ∧ e.outClosed = false) ∧
+    ((appSendDgram e d).2 ≠ .unit → (appSendDgram e d).1 = e) := by
+  unfold appSendDgram
+  by_cases hl : d.host.length > 255
+  · simp [hl]; omega
+  · by_cases hc : e.outClosed = true
+    · simp [hl, hc]; omega
+    · simp only [Bool.not_eq_true] at hc
+      simp [hl, hc]; omega
+
+/-! Non-vacuity of the every-history theorems (`dgramCap` 4, windows 2, threshold 1). -/
+private def hcfg : Opts := { rwnd := 2, threshold := 1, dgramCap := 4 }
+private def hmk (k : UInt8) : Dgram := { fid := k.toNat, host := [k], port := 53, data := [k, k] }
+private def hdg (k : UInt8) : Mux.Op := .deliver (.msg (.frame (.datagram k.toNat 53 [k] [k, k])))
+private def hfr (f : Frame) : Mux.Op := .deliver (.msg (.frame f))
+
+/-- An overflow followed by a drain: four datagrams fill the queue, the fifth is dropped, two are read,
+    the next two ARE queued, the one after is dropped again. -/
+private def hOver : List Mux.Op :=
+  [hdg 1, hdg 2, hdg 3, hdg 4, hdg 5, .recvDgram, .recvDgram, hdg 6, hdg 7, hdg 8]
+open Penguin.Mux in
+example : (runOpsD { opts := hcfg } {} hOver).2.queued = [hmk 1, hmk 2, hmk 3, hmk 4, hmk 6, hmk 7] ∧
+    (runOpsD { opts := hcfg } {} hOver).2.seen = [hmk 1, hmk 2, hmk 3, hmk 4, hmk 5, hmk 6, hmk 7, hmk 8] ∧
+    (runOpsD { opts := hcfg } {} hOver).2.returned = [hmk 1, hmk 2] ∧
+    (runOpsD { opts := hcfg } {} hOver).2.discarded = [] ∧
+    (runOps { opts := hcfg } hOver).dgramq = [hmk 3, hmk 4, hmk 6, hmk 7] ∧
+    (runOps { opts := hcfg } hOver).muxAlive = true ∧
+    deliveredDg hOver = [hmk 1, hmk 2, hmk 3, hmk 4, hmk 5, hmk 6, hmk 7, hmk 8] := by decide
+/-! … and the state after the overflow and the two reads meets every hypothesis of
+    `datagram_with_room_is_never_dropped` (running, not parked, `Multiplexor` alive, room for two), while
+    the state after the first four datagrams is one where a datagram is dropped for want of room
+    (`datagram_dropped_only_when_full_or_gone`). -/
+open Penguin.Mux in
+example : let e := runOps { opts := hcfg } (hOver.take 7)
+    e.dead = false ∧ e.draining = none ∧ e.closing = none ∧ e.park = none ∧ e.inbox = [] ∧ e.srcEnded = false ∧
+    e.muxAlive = true ∧ e.dgramq.length < e.opts.dgramCap ∧ e.dgramq = [hmk 3, hmk 4] ∧
+    (applyOp e (hdg 6)).1.dgramq = [hmk 3, hmk 4, hmk 6] := by decide
+open Penguin.Mux in
+example : let e := runOps { opts := hcfg } (hOver.take 4)
+    e.dead = false ∧ e.draining = none ∧ e.closing = none ∧ e.park = none ∧ e.inbox = [] ∧ e.srcEnded = false ∧
+    (applyOp e (hdg 5)).1.dgramq = e.dgramq ∧ e.opts.dgramCap ≤ e.dgramq.length := by decide
+
+/-! … and the records are made as `datagram_record_is_observable` says. -/
+open Penguin.Mux in
+example : hmk 6 ∈ queuedDg (runOps { opts := hcfg } (hOver.take 7)) (.datagram 6 53 [6] [6, 6]) ∧
+    hmk 5 ∉ queuedDg (runOps { opts := hcfg } (hOver.take 4)) (.datagram 5 53 [5] [5, 5]) ∧
+    hmk 1 ∈ returnedDg .recvDgram (applyOp (runOps { opts := hcfg } (hOver.take 5)) .recvDgram).2.1 ∧
+    hmk 1 ∈ discardedDg (runOps { opts := hcfg } [hdg 1]) .dropMux ∧
+    hmk 1 ∈ sentDg (.sendDgram (hmk 1)) (applyOp { opts := hcfg } (.sendDgram (hmk 1))).2.1 := by decide
+
+/-- Datagrams interleaved with stream traffic in both directions (the peer opens flow 5). -/
+private def hMix : List Mux.Op :=
+  [hfr (.connect 5 4 80 [104]), hdg 1, .accept, hfr (.push 5 [1, 2]), hdg 2, .read 0 5, .recvDgram,
+   .write 0 [9], .sendDgram (hmk 7), hfr (.push 5 [3]), hdg 3, .sendDgram (hmk 8), .read 0 5, .recvDgram]
+open Penguin.Mux in
+example : (runOpsD { opts := hcfg } {} hMix).2.queued = [hmk 1, hmk 2, hmk 3] ∧
+    (runOpsD { opts := hcfg } {} hMix).2.returned = [hmk 1, hmk 2] ∧
+    (runOps { opts := hcfg } hMix).dgramq = [hmk 3] ∧
+    (runOpsD { opts := hcfg } {} hMix).2.sent = [hmk 7, hmk 8] ∧
+    dgramsEv (runOpsD { opts := hcfg } {} hMix).2.evs = [hmk 7, hmk 8] ∧
+    (runOps { opts := hcfg } hMix).outClosed = false := by decide
+/-! … the same history with a `Ping` for every `Datagram` frame: the stream got the same bytes, the same
+    frames went out, the datagram queue stayed empty. -/
+open Penguin.Mux in
+example : (runOps { opts := hcfg } (hMix.map neutralOp)).dgramq = [] ∧
+    (runOps { opts := hcfg } hMix).dgramq ≠ [] ∧
+    (runOpsObs { opts := hcfg } hMix).map (·.1) =
+      [some .unit, some .unit, some (.stream 0 [104] 80), some .unit, some .unit, some (.data [1, 2]), none,
+       some (.wrote 1), some .unit, some .unit, some .unit, some .unit, some (.data [3]), none] ∧
+    (runOpsEv { opts := hcfg } (hMix.map neutralOp)).2 =
+      [.wire (.frame (.acknowledge 5 2)), .wire (.frame (.acknowledge 5 1)), .wire (.frame (.push 5 [9])),
+       .wire (.frame (.datagram 7 53 [7] [7, 7])), .wire (.frame (.datagram 8 53 [8] [8, 8])),
+       .wire (.frame (.acknowledge 5 1))] := by decide
+
+/-- A datagram after the `Multiplexor` was dropped: the queued one is discarded with the queue, the
+    later one is processed (the task is waiting for the peer's Close) but not queued. -/
+private def hDrop : List Mux.Op := [hdg 1, .dropMux, hdg 2]
+open Penguin.Mux in
+example : (runOpsD { opts := hcfg } {} hDrop).2.queued = [hmk 1] ∧
+    (runOpsD { opts := hcfg } {} hDrop).2.seen = [hmk 1, hmk 2] ∧
+    (runOpsD { opts := hcfg } {} hDrop).2.returned = [] ∧
+    (runOpsD { opts := hcfg } {} hDrop).2.discarded = [hmk 1] ∧
+    (runOps { opts := hcfg } hDrop).dgramq = [] ∧
+    (runOps { opts := hcfg } hDrop).muxAlive = false := by decide
+
+/-- Sending: accepted, accepted while the sink is blocked, refused (host of 256 bytes), accepted, then a
+    transport error, refused (closed): what went out is a strict prefix of what was accepted. -/
+private def hSend : List Mux.Op :=
+  [.sendDgram (hmk 1), .sinkRoom (some 1), .sendDgram (hmk 2),
+   .sendDgram { fid := 3, host := List.replicate 256 0, port := 1, data := [] }, .sendDgram (hmk 4),
+   .deliver .err, .sendDgram (hmk 5)]
+set_option maxRecDepth 8192 in
+open Penguin.Mux in
+example : (runOpsD { opts := hcfg } {} hSend).2.sent = [hmk 1, hmk 2, hmk 4] ∧
+    dgramsEv (runOpsD { opts := hcfg } {} hSend).2.evs = [hmk 1, hmk 2] ∧
+    (runOps { opts := hcfg } hSend).outq = [] ∧ (runOps { opts := hcfg } hSend).outClosed = true ∧
+    (runOps { opts := hcfg } (hSend.take 5)).outClosed = false ∧
+    dgramsEv (runOpsD { opts := hcfg } {} (hSend.take 5)).2.evs ++ dgramsQ (runOps { opts := hcfg } (hSend.take 5)).outq =
+      [hmk 1, hmk 2, hmk 4] := by decide
 
 end Penguin.C11
